@@ -43,6 +43,7 @@ def check(ctx):
     ctx.floor("state_machine_paths", total, 42)
     for c in psm.STATE_CLASSES:
         ctx.count(f"paths_{c}", len(table[c][1]))
+    ctx.extra["path_table"] = [p.describe() for c in psm.STATE_CLASSES for p in table[c][1]]
     st = ctx.need(repo.cls(f"{psm.SM}.State"), "State")
 
     def W(ci, p):
